@@ -259,11 +259,14 @@ class Renderer:
         if r < 0.8:
             return "  "
         if r < 0.87:
-            return " /* c */ "
+            # block comments of every shape: empty, only stars, stars before the closer, slashes and openers inside,
+            # line breaks inside, the word the query lexer looks for
+            return " " + self.rng.choice(["/* c */", "/* c */", "/**/", "/***/", "/****/", "/* x **/", "/** doc **/", "/*/ */", "/* /* */",
+                                          "/* // */", "/* a\n b */", "/* * / */", "/* EXPECT: x */", "/*EXPECT:*/", "/* \\ */"]) + " "
         if r < 0.93:
             return "\n"
         if r < 0.97:
-            return " // c\n"
+            return " " + self.rng.choice(["// c", "//", "// /* c", "// c */", "/// c", "// EXPECT: y", "// \"q"]) + "\n"
         return "\t"
 
     def wrap(self, child, need):
